@@ -624,6 +624,14 @@ def corner_models():
         g.node.append(helper.make_node("If", ["c"], ["r"], name="if_later", then_branch=tb, else_branch=eb))
         g.output.append(_vi("r", TP.FLOAT, (2,)))
         out.append((f"function_internal_name_used_in_later_branch[{inner_name}]", _model(g, [f], [helper.make_opsetid("local", 1)])))
+    # two Identities of one value, both returned (eliminating them leaves one value at two output positions)
+    g = onnx.GraphProto(name="main")
+    g.input.extend([_vi("x"), _vi("c", TP.BOOL, ())])
+    g.node.append(helper.make_node("Relu", ["x"], ["u"], name="relu"))
+    g.node.append(helper.make_node("Identity", ["u"], ["y1"], name="id1"))
+    g.node.append(helper.make_node("Identity", ["u"], ["y2"], name="id2"))
+    g.output.extend([_vi("y1", TP.FLOAT, (2,)), _vi("y2", TP.FLOAT, (2,))])
+    out.append(("two_identities_of_one_value_returned", _model(g)))
     # attribute kinds a pass must be able to compare, hash and copy
     tp = helper.make_tensor_type_proto(TP.FLOAT, [2])
     g = onnx.GraphProto(name="main")
